@@ -50,50 +50,75 @@ theorem copyWithin_eq (buf : Bytes) (src dst n : Nat) (h1 : src + n ≤ buf.leng
 
 /-! ## reserve -/
 
-theorem reserve_some {fixed : Bool} {s s1 : State} {n : Nat} (h : WFL s) (hr : reserve fixed s n = some s1) :
+theorem amortizedCap_ge (cap req : Nat) : req ≤ amortizedCap cap req ∧ cap * 2 ≤ amortizedCap cap req ∧
+    minNonZeroCap ≤ amortizedCap cap req := by
+  unfold amortizedCap; omega
+
+/-- the capacity `c` after reserving `n` more bytes on `s`: unchanged — NO reallocation — while the
+    spare room suffices; otherwise (growable strings only) the amortized capacity
+    `max(2·cap, len + n, 8)`, or the arena's grant if that is larger (`MutBumpString`) -/
+def CapAfter (a : Alloc) (s : State) (n : Nat) (c : Nat) : Prop :=
+  (n ≤ s.cap - s.len → c = s.cap) ∧
+  (s.cap - s.len < n →
+    match a with
+    | .fixed => False
+    | .exact => c = amortizedCap s.cap (s.len + n)
+    | .atLeast g => c = max g (amortizedCap s.cap (s.len + n)))
+
+theorem reserve_some {a : Alloc} {s s1 : State} {n : Nat} (h : WFL s) (hr : reserve a s n = some s1) :
     s1.len = s.len ∧ s1.bytes = s.bytes ∧ s.len + n ≤ s1.buf.length ∧ WFL s1 ∧
-      (fixed = true → s1 = s) ∧ s.buf.length ≤ s1.buf.length ∧ s1.buf.take s.buf.length = s.buf := by
+      CapAfter a s n s1.buf.length := by
   unfold reserve at hr
   unfold WFL at *
   split at hr
-  · simp only [Option.some.injEq] at hr; subst hr
-    exact ⟨rfl, rfl, by omega, h, fun _ => rfl, Nat.le_refl _, by simp⟩
-  · split at hr
-    · simp at hr
-    · rename_i hf
-      simp only [Option.some.injEq] at hr; subst hr
-      refine ⟨rfl, ?_, by simp; omega, by simp; omega, fun hx => absurd hx hf, by simp, by simp⟩
+  · rename_i hle
+    simp only [Option.some.injEq] at hr; subst hr
+    exact ⟨rfl, rfl, by omega, h, fun _ => rfl, fun hlt => by simp only [State.cap] at hlt; omega⟩
+  · rename_i hnle
+    have hge := amortizedCap_ge s.buf.length (s.len + n)
+    cases a with
+    | fixed => simp [growTo] at hr
+    | exact =>
+      simp only [growTo, Option.some.injEq] at hr; subst hr
+      refine ⟨rfl, ?_, by simp; omega, by simp; omega, fun hle => by simp only [State.cap] at hle; omega,
+        fun _ => by simp only [List.length_append, List.length_replicate, State.cap]; omega⟩
+      simp only [State.bytes]
+      rw [List.take_append_of_le_length h]
+    | atLeast g =>
+      simp only [growTo, Option.some.injEq] at hr; subst hr
+      refine ⟨rfl, ?_, by simp; omega, by simp; omega, fun hle => by simp only [State.cap] at hle; omega,
+        fun _ => by simp only [List.length_append, List.length_replicate, State.cap]; omega⟩
       simp only [State.bytes]
       rw [List.take_append_of_le_length h]
 
-theorem reserve_none_iff {fixed : Bool} {s : State} {n : Nat} :
-    reserve fixed s n = none ↔ fixed = true ∧ s.buf.length - s.len < n := by
+theorem reserve_none_iff {a : Alloc} {s : State} {n : Nat} :
+    reserve a s n = none ↔ a.isFixed = true ∧ s.buf.length - s.len < n := by
   unfold reserve
   split
   · simp; omega
-  · split <;> simp_all
+  · cases a <;> simp_all [growTo, Alloc.isFixed]
 
 /-- outcome of an operation that may need `need` more bytes: a FIXED string without that room
-    reports an allocation error and is unchanged; otherwise the contents become `out`
-    (a fixed string keeps its capacity) -/
-def GrowsTo (fixed : Bool) (s : State) (need : Nat) (r : Res Unit) (out : Bytes) : Prop :=
-  if fixed = true ∧ s.cap - s.len < need then r = .err s
-  else ∃ s', r = .ok () s' ∧ WFL s' ∧ s'.bytes = out ∧ (fixed = true → s'.cap = s.cap)
+    reports an allocation error and is unchanged; otherwise the contents become `out` and the
+    capacity follows `CapAfter` (in particular: no reallocation while the room suffices) -/
+def GrowsTo (a : Alloc) (s : State) (need : Nat) (r : Res Unit) (out : Bytes) : Prop :=
+  if a.isFixed = true ∧ s.cap - s.len < need then r = .err s
+  else ∃ s', r = .ok () s' ∧ WFL s' ∧ s'.bytes = out ∧ CapAfter a s need s'.cap
 
-theorem appendBytes_spec (fixed : Bool) (s : State) (data : Bytes) (h : WFL s) :
-    GrowsTo fixed s data.length (appendBytes fixed s data) (s.bytes ++ data) := by
+theorem appendBytes_spec (al : Alloc) (s : State) (data : Bytes) (h : WFL s) :
+    GrowsTo al s data.length (appendBytes al s data) (s.bytes ++ data) := by
   unfold GrowsTo appendBytes
-  match hr : reserve fixed s data.length with
+  match hr : reserve al s data.length with
   | none =>
     have := reserve_none_iff.1 hr
     rw [if_pos (by simpa [State.cap] using this)]
   | some s1 =>
-    have hn : ¬ (fixed = true ∧ s.cap - s.len < data.length) := by
+    have hn : ¬ (al.isFixed = true ∧ s.cap - s.len < data.length) := by
       intro hc
-      have := (reserve_none_iff (fixed := fixed) (s := s) (n := data.length)).2 (by simpa [State.cap] using hc)
+      have := (reserve_none_iff (a := al) (s := s) (n := data.length)).2 (by simpa [State.cap] using hc)
       rw [this] at hr; simp at hr
     rw [if_neg hn]
-    obtain ⟨hlen, hb, hcap, hw, hfix, _, _⟩ := reserve_some h hr
+    obtain ⟨hlen, hb, hcap, hw, hca⟩ := reserve_some h hr
     simp only
     rw [writeAt_eq _ _ _ (by omega)]
     refine ⟨_, rfl, by simp [WFL]; omega, ?_, ?_⟩
@@ -101,23 +126,24 @@ theorem appendBytes_spec (fixed : Bool) (s : State) (data : Bytes) (h : WFL s) :
       simp only [State.bytes]
       unfold WFL at hw
       list_pw
-    · intro hf; have hs := hfix hf; subst hs; simp [State.cap]; unfold WFL at h; omega
+    · have hc : ∀ b l, b.length = s1.buf.length → ({ buf := b, len := l } : State).cap = s1.buf.length := fun _ _ hb => hb
+      rw [hc _ _ (by simp; unfold WFL at hw; omega)]; exact hca
 
-theorem insertBytes_spec (fixed : Bool) (s : State) (idx : Nat) (data : Bytes) (h : WFL s) (hi : idx ≤ s.len) :
-    GrowsTo fixed s data.length (insertBytes fixed s idx data)
+theorem insertBytes_spec (al : Alloc) (s : State) (idx : Nat) (data : Bytes) (h : WFL s) (hi : idx ≤ s.len) :
+    GrowsTo al s data.length (insertBytes al s idx data)
       (s.bytes.take idx ++ data ++ s.bytes.drop idx) := by
   unfold GrowsTo insertBytes
-  match hr : reserve fixed s data.length with
+  match hr : reserve al s data.length with
   | none =>
     have := reserve_none_iff.1 hr
     rw [if_pos (by simpa [State.cap] using this)]
   | some s1 =>
-    have hn : ¬ (fixed = true ∧ s.cap - s.len < data.length) := by
+    have hn : ¬ (al.isFixed = true ∧ s.cap - s.len < data.length) := by
       intro hc
-      have := (reserve_none_iff (fixed := fixed) (s := s) (n := data.length)).2 (by simpa [State.cap] using hc)
+      have := (reserve_none_iff (a := al) (s := s) (n := data.length)).2 (by simpa [State.cap] using hc)
       rw [this] at hr; simp at hr
     rw [if_neg hn]
-    obtain ⟨hlen, hb, hcap, hw, hfix, _, _⟩ := reserve_some h hr
+    obtain ⟨hlen, hb, hcap, hw, hca⟩ := reserve_some h hr
     simp only
     rw [copyWithin_eq _ _ _ _ (by omega) (by omega)]
     simp only
@@ -128,7 +154,8 @@ theorem insertBytes_spec (fixed : Bool) (s : State) (idx : Nat) (data : Bytes) (
       unfold WFL at hw
       rw [hlen] at *
       list_pw
-    · intro hf; have hs := hfix hf; subst hs; simp [State.cap]; unfold WFL at h; omega
+    · have hc : ∀ b l, b.length = s1.buf.length → ({ buf := b, len := l } : State).cap = s1.buf.length := fun _ _ hb => hb
+      rw [hc _ _ (by simp; unfold WFL at hw; omega)]; exact hca
 
 /-! ## ranges -/
 
@@ -190,25 +217,25 @@ theorem vecDrainDrop_spec (s : State) (a b : Nat) (h : WFL s) (hab : a ≤ b) (h
     list_pw
 
 /-- the part of `replace_range` after the range check and the boundary assertions -/
-theorem replaceRange_bytes (fixed : Bool) (s : State) (sb eb : Bound) (str : Bytes) (a b : Nat) (h : WFL s)
+theorem replaceRange_bytes (al : Alloc) (s : State) (sb eb : Bound) (str : Bytes) (a b : Nat) (h : WFL s)
     (hr : sliceRange sb eb s.len = some (a, b)) (ha : boundaryOk s a = true) (hb : boundaryOk s b = true) :
-    GrowsTo fixed s (str.length - (b - a)) (replaceRange fixed s sb eb str)
+    GrowsTo al s (str.length - (b - a)) (replaceRange al s sb eb str)
       (s.bytes.take a ++ str ++ s.bytes.drop b) := by
   obtain ⟨hab, hbl⟩ := sliceRange_some hr
   unfold GrowsTo replaceRange
   rw [hr]
   simp only [ha, hb, Bool.not_true, Bool.false_eq_true, ↓reduceIte]
-  match hres : reserve fixed s (str.length - (b - a)) with
+  match hres : reserve al s (str.length - (b - a)) with
   | none =>
     have := reserve_none_iff.1 hres
     rw [if_pos (by simpa [State.cap] using this)]
   | some s1 =>
-    have hn : ¬ (fixed = true ∧ s.cap - s.len < str.length - (b - a)) := by
+    have hn : ¬ (al.isFixed = true ∧ s.cap - s.len < str.length - (b - a)) := by
       intro hc
-      have := (reserve_none_iff (fixed := fixed) (s := s) (n := str.length - (b - a))).2 (by simpa [State.cap] using hc)
+      have := (reserve_none_iff (a := al) (s := s) (n := str.length - (b - a))).2 (by simpa [State.cap] using hc)
       rw [this] at hres; simp at hres
     rw [if_neg hn]
-    obtain ⟨hlen, hbytes, hcap, hw, hfix, _, _⟩ := reserve_some h hres
+    obtain ⟨hlen, hbytes, hcap, hw, hca⟩ := reserve_some h hres
     unfold WFL at hw h
     simp only
     by_cases heq : b - a = str.length
@@ -224,7 +251,8 @@ theorem replaceRange_bytes (fixed : Bool) (s : State) (sb eb : Bound) (str : Byt
         have e : ((s1.len : Int) + ((str.length : Int) - ((b - a : Nat) : Int))).toNat = s1.len := by omega
         rw [e, hlen] at *
         list_pw
-      · intro hf; have hs := hfix hf; subst hs; simp [State.cap]; omega
+      · have hc : ∀ b l, b.length = s1.buf.length → ({ buf := b, len := l } : State).cap = s1.buf.length := fun _ _ hb => hb
+        rw [hc _ _ (by simp; omega)]; exact hca
     · rw [if_pos (by omega)]
       rw [copyWithin_eq _ _ _ _ (by omega) (by omega)]
       simp only
@@ -237,27 +265,28 @@ theorem replaceRange_bytes (fixed : Bool) (s : State) (sb eb : Bound) (str : Byt
         have e : ((s1.len : Int) + ((str.length : Int) - ((b - a : Nat) : Int))).toNat = s1.len + str.length - (b - a) := by omega
         rw [e, hlen] at *
         list_pw
-      · intro hf; have hs := hfix hf; subst hs; simp [State.cap]; omega
+      · have hc : ∀ b l, b.length = s1.buf.length → ({ buf := b, len := l } : State).cap = s1.buf.length := fun _ _ hb => hb
+        rw [hc _ _ (by simp; omega)]; exact hca
 
-theorem extendFromWithin_bytes (fixed : Bool) (s : State) (sb eb : Bound) (a b : Nat) (h : WFL s)
+theorem extendFromWithin_bytes (al : Alloc) (s : State) (sb eb : Bound) (a b : Nat) (h : WFL s)
     (hr : sliceRange sb eb s.len = some (a, b)) (ha : boundaryOk s a = true) (hb : boundaryOk s b = true) :
-    GrowsTo fixed s (b - a) (extendFromWithin fixed s sb eb)
+    GrowsTo al s (b - a) (extendFromWithin al s sb eb)
       (s.bytes ++ (s.bytes.drop a).take (b - a)) := by
   obtain ⟨hab, hbl⟩ := sliceRange_some hr
   unfold GrowsTo extendFromWithin
   rw [hr]
   simp only [ha, hb, Bool.not_true, Bool.false_eq_true, ↓reduceIte]
-  match hres : reserve fixed s (b - a) with
+  match hres : reserve al s (b - a) with
   | none =>
     have := reserve_none_iff.1 hres
     rw [if_pos (by simpa [State.cap] using this)]
   | some s1 =>
-    have hn : ¬ (fixed = true ∧ s.cap - s.len < b - a) := by
+    have hn : ¬ (al.isFixed = true ∧ s.cap - s.len < b - a) := by
       intro hc
-      have := (reserve_none_iff (fixed := fixed) (s := s) (n := b - a)).2 (by simpa [State.cap] using hc)
+      have := (reserve_none_iff (a := al) (s := s) (n := b - a)).2 (by simpa [State.cap] using hc)
       rw [this] at hres; simp at hres
     rw [if_neg hn]
-    obtain ⟨hlen, hbytes, hcap, hw, hfix, _, _⟩ := reserve_some h hres
+    obtain ⟨hlen, hbytes, hcap, hw, hca⟩ := reserve_some h hres
     unfold WFL at hw h
     simp only
     rw [copyWithin_eq _ _ _ _ (by omega) (by omega)]
@@ -266,7 +295,8 @@ theorem extendFromWithin_bytes (fixed : Bool) (s : State) (sb eb : Bound) (a b :
       simp only [State.bytes]
       rw [hlen] at *
       list_pw
-    · intro hf; have hs := hfix hf; subst hs; simp [State.cap]; omega
+    · have hc : ∀ b l, b.length = s1.buf.length → ({ buf := b, len := l } : State).cap = s1.buf.length := fun _ _ hb => hb
+      rw [hc _ _ (by simp; omega)]; exact hca
 
 /-! ## split_off (byte level) -/
 
